@@ -14,7 +14,7 @@ from typing import Any, Dict, List
 from .. import machine, progen
 from ..machine import (O_BA, O_CYC, O_F, O_FIFO, O_I, O_IMR, O_ININT, O_INS, O_IRQ, O_ISR, O_LATCH, O_NMTI, O_NSTI,
                        O_PC, O_PEND, O_PWR, O_S, O_STACK, O_U, O_WATCH, O_X, O_Y)
-from ..rng import Rng
+from ..rng import Rng, mix
 from ..runner import Batch, digest
 
 ID = "C16"
@@ -276,11 +276,23 @@ def execute(scn: Dict[str, Any]) -> Dict[str, Any]:
     base = machine.run_machine(scn)
     crashes = _choose_crashes(scn, base["obs"])
     scn["crashes"] = crashes      # materialise: a replay file carries the crash points themselves
+    # how the bundle comes back: into a freshly constructed machine (a crash), or — one crash point in three — into
+    # the *same* machine after it ran on for a few more instructions (a "load state" in a live session): whatever
+    # the machine cached or accumulated meanwhile must not survive the load
+    modes = scn.get("crash_modes")
+    if not modes:
+        modes = {}
+        for k in crashes:
+            rm = Rng(mix(scn["crash_seed"], "mode", k))
+            modes[str(k)] = ["rewind", rm.range(1, 12)] if rm.chance(1, 3) else ["fresh"]
+        scn["crash_modes"] = modes
     runs = {}
     for k in crashes:
         c = dict(scn)
-        # restart is applied at boundary k before that boundary's other inputs
-        c["ops"] = [o for o in scn["ops"] if o[0] < k] + [[k, "restart"]] + [o for o in scn["ops"] if o[0] >= k]
+        mode = modes.get(str(k), ["fresh"])
+        op = [k, "restart"] if mode[0] == "fresh" else [k, "rewind", int(mode[1])]
+        # the restore is applied at boundary k before that boundary's other inputs
+        c["ops"] = [o for o in scn["ops"] if o[0] < k] + [op] + [o for o in scn["ops"] if o[0] >= k]
         runs[str(k)] = machine.run_machine(c)
     return {"base": base, "restored": runs, "crashes": crashes}
 
@@ -398,7 +410,8 @@ def stats(scn: Dict[str, Any], hist: Dict[str, Any]) -> Dict[str, Any]:
         run = hist["restored"].get(str(k))
         if run and run["obs"] and run["obs"][-1][O_IRQ] > (run["obs"][k][O_IRQ] if k < len(run["obs"]) else 0):
             probes["delivery_after_restore"] = probes.get("delivery_after_restore", 0) + 1
-    faults = {"snapshot_restore": len(hist["crashes"])}
+    in_place = sum(1 for m in (scn.get("crash_modes") or {}).values() if m and m[0] == "rewind")
+    faults = {"snapshot_restore": len(hist["crashes"]), "restore_into_used_machine": in_place}
     for op in scn["ops"]:
         faults[op[1]] = faults.get(op[1], 0) + 1
     return {"nontrivial": nontrivial, "sig": digest([scn["prog"]["image"], scn["ops"], scn["timer"], hist["crashes"]]),
